@@ -155,9 +155,12 @@ Pre(s, op, a) ==
                            /\ Alone(t, a.d)
     [] op = "proxy" -> {a.d, a.x} \subseteq Names /\ a.d # a.x
     [] op = "flow_proxy" -> {a.d, a.x} \subseteq Names /\ a.d # a.x
+    \* (a stream that already shares its indexer with a proxy would drag the proxy along: linking is specified
+    \*  for a stream that shares nothing yet)
     [] op = "link_with" -> /\ {a.d, a.x} \subseteq Names /\ a.d # a.x /\ t[a.d].k = "s" /\ t[a.x].k = "s"
-                           /\ t[a.d].pkg = t[a.x].pkg
+                           /\ t[a.d].pkg = t[a.x].pkg /\ Alone(t, a.d)
     [] op = "unlink" -> a.x \in Names /\ t[a.x].k = "s"
+    [] op = "construct" -> a.x \in Names /\ a.k \in {"s", "m"} /\ a.price >= 0 /\ a.cf >= 0
     [] OTHER -> FALSE
 
 Exc(s, op, a) == None
@@ -256,6 +259,12 @@ Post(s, op, a) ==
          IN [s EXCEPT !.st = Normalize([t EXCEPT ![a.d] = [d1 EXCEPT !.ph = <<p1>>, !.fl = FlOf({p1}, LAMBDA p : v1)]])]
     [] op = "unlink" ->
          [s EXCEPT !.st = Normalize([t EXCEPT ![a.x] = [t[a.x] EXCEPT !.fr = Fresh(a.x), !.tr = Fresh(a.x), !.pr = Fresh(a.x)]])]
+    [] op = "construct" ->     \* Stream(...) / MultiStream(...) with price and characterization factors given to the constructor
+         LET phs == IF a.k = "s" THEN {"l"} ELSE {"g", "l"} IN
+         [s EXCEPT !.st = Normalize([t EXCEPT ![a.x] = [k |-> a.k, ph |-> Canon(phs), fl |-> FlOf(phs, LAMBDA p : Zeros), T |-> 300, P |-> 100,
+                                                        pkg |-> t[a.x].pkg, price |-> a.price, cf |-> a.cf,
+                                                        fr |-> Fresh(a.x), tr |-> Fresh(a.x), pr |-> Fresh(a.x)]]),
+                   !.sv[a.x] = NoSnap]
 
 ---------------------------------------------------------------------------
 (* what the property demands of a logged step  e = [op, a, post, obs] *)
@@ -273,6 +282,7 @@ SharingOK(s) ==
      /\ s.st[x].fr = LeastName(ClassOf(s.st, x, "fr")) /\ s.st[x].tr = LeastName(ClassOf(s.st, x, "tr"))
      /\ s.st[x].tr = s.st[y].tr => s.st[x].T = s.st[y].T /\ s.st[x].P = s.st[y].P
      /\ s.st[x].fr = s.st[y].fr => Tot(s.st[x]) = Tot(s.st[y]) /\ s.st[x].pkg = s.st[y].pkg /\ s.st[x].k = s.st[y].k
+                                    /\ (s.st[x].k = "m" => s.st[x].ph = s.st[y].ph)
      /\ (s.st[x].pr = s.st[y].pr /\ s.st[x].k = "s" /\ s.st[y].k = "s") => s.st[x].ph = s.st[y].ph
 Legal(s) == TypeOKs(s) /\ SharingOK(s)
 TypeOK == TypeOKs(S)
@@ -307,6 +317,14 @@ Judge(s, e) ==
        IF op # "restore" /\ Tot(u[a.x]) # Tot(t[a.x]) THEN "contents.total"
        ELSE IF op # "restore" /\ (u[a.x].T # t[a.x].T \/ u[a.x].P # t[a.x].P) THEN "contents.TP"
        ELSE IF op # "restore" /\ u[a.x].k = "m" /\ u[a.x].fl # Relabel(t[a.x], Range(u[a.x].ph)) THEN "contents.phase"
+       ELSE IF op \in {"reduce_phases", "as_stream"} THEN
+            \* which label a collapsed stream carries is the library's choice within the phase class; but two
+            \* non-empty phases must both survive a reduction
+            LET K == {q \in Range(t[a.x].ph) : ~IsZero(t[a.x].fl[q])} IN
+            IF op = "reduce_phases" /\ Cardinality(K) >= 2 /\ t[a.x].k = "m" /\
+               ~(u[a.x].k = "m" /\ \A q \in K : Row(u[a.x], q) = t[a.x].fl[q]) THEN "reduce.phases_merged"
+            ELSE IF Cardinality(K) = 1 /\ u[a.x].k = "s" /\ Cls(u[a.x].ph[1]) # Cls(CHOOSE q \in K : TRUE) THEN "contents.phase"
+            ELSE IF ~FrameOK(s, e, {a.x}) THEN "frame" ELSE "ok"
        ELSE IF u[a.x] # p.st[a.x] THEN "post.representation"
        ELSE IF ~FrameOK(s, e, {a.x}) THEN "frame"
        ELSE "ok"
@@ -314,7 +332,8 @@ Judge(s, e) ==
        LET src == t[a.x] IN
        IF u[a.d].T # src.T \/ u[a.d].P # src.P THEN "copy_like.TP"
        ELSE IF Tot(u[a.d]) # Tot(src) THEN "copy_like.flow_total"
-       ELSE IF \E q \in AllPhases : Row(u[a.d], q) # Row(src, q) THEN "copy_like.phase"
+       \* every phase's material sits in its phase (the other-case label only where the exact one is absent)
+       ELSE IF u[a.d].k = "m" /\ (~Fits(src, Range(u[a.d].ph)) \/ u[a.d].fl # Relabel(src, Range(u[a.d].ph))) THEN "copy_like.phase"
        ELSE IF u[a.d].k = "s" /\ src.k = "s" /\ u[a.d].ph # src.ph THEN "copy_like.phase"
        ELSE IF ~FrameOK(s, e, {a.d}) THEN "frame"
        ELSE IF ~e.obs.behaves THEN "sharing.behaviour"
@@ -376,9 +395,11 @@ FlowProxy == "flow_proxy" \in Ops /\ \E d \in Names, x \in Names : Act("flow_pro
 LinkWith == "link_with" \in Ops /\ \E d \in Names, x \in Names, f \in BOOLEAN, ph \in BOOLEAN, tp \in BOOLEAN :
               Act("link_with", [d |-> d, x |-> x, flow |-> f, phase |-> ph, TP |-> tp])
 Unlink == "unlink" \in Ops /\ \E x \in Names : Act("unlink", [x |-> x])
+Construct == "construct" \in Ops /\ \E x \in Names, k \in {"s", "m"}, pr \in {0, 3}, cf \in {0, 5} :
+               Act("construct", [x |-> x, k |-> k, price |-> pr, cf |-> cf])
 Next == MixFrom \/ SplitTo \/ SeparateOut \/ CopyFlow \/ EmptyS \/ SetFlow \/ SetT \/ SetP \/ SetPhases \/ SetPhase
         \/ ReducePhases \/ AsStream \/ GetEq \/ ViewWrite \/ Save \/ Restore \/ Copy \/ CopyLike \/ Proxy \/ FlowProxy
-        \/ LinkWith \/ Unlink
+        \/ LinkWith \/ Unlink \/ Construct
 vars == <<st, sv, path>>
 Spec == Init /\ [][Next]_vars
 
